@@ -27,6 +27,12 @@ func c08Legs(tier, o string) []pairLeg {
 			k = thin(k, 110)
 		}
 		add("K", k)
+		if two {
+			add("K2same", Keyed2Same())
+		} else {
+			// ids that print alike (1 / "1", true / "true"), structured ids; two members each
+			add("Kstr", thin(KeyedStr().Filter(func(v V) bool { return len(v.([]interface{})) == 2 }), 90))
+		}
 		keys := []string{"id"}
 		if two {
 			keys = []string{"id", "t"}
